@@ -136,6 +136,14 @@ func (s YAMLSyntax) Set(prefix, path resource.PropertyPath, new yaml.Node) (*yam
 		s.Kind = new.Kind
 		s.Tag = new.Tag
 		s.Value = new.Value
+		if new.Kind == yaml.ScalarNode && new.Tag != "!!str" {
+			// A quoted or block style left over from the replaced node would turn the new value into a
+			// string when the document is written back (e.g. 123 over "str" would be stored as "123").
+			s.Style = new.Style
+		} else {
+			// The explicit-tag marker belonged to the tag of the replaced node.
+			s.Style &^= yaml.TaggedStyle
+		}
 		return s.Node, nil
 	}
 
